@@ -132,6 +132,7 @@ INFO = {
  'C11-m8': ("Buffer.Diff takes the consumer mutex with TryLock and reads the offset unlocked when that fails", 'Diff(c) called from a goroutine other than the one driving c while that one is in Get/Commit/Rollback'),
  'C13-m7': ("the replay branch of Channel.Get extracted into a helper that uses nil as its nothing-to-replay sentinel", 'an interface-typed source carrying a nil value, a Rollback covering it and a re-read reaching it: the nil is skipped, a fresh value is returned ahead of (and then instead of) the replays'),
  'C17-m7': ("registration hoisted above the start block and the nil-function check moved into the start helper", 'Do(nil) on an idle Worker recovered by its caller, then ordinary use: a phantom holder keeps the next instance from ever being stopped'),
+ 'C07-m7': ("the nil-yield guard and the already-stopped guard of the SubscribeContext iterator merged (same site and effect as C06-m7, written independently)", 'a SubscribeContext context cancelled before its iterator is used, then the iterator called with a nil yield (panic recovered) while another subscriber stands: second unsubscribe, later negative-subscribers panic and a broken instance'),
 
 }
 
